@@ -24,7 +24,7 @@ for p in props:
         "evidence_file": f"/verif/evidence/{pid}.json",
         "replay_cmd_template": f"./check {pid} --replay {{path}}",
         "engine": "pyvc",
-        "level_claimed": {"category": "proof", "text": meta["level_text"], "design_ref": meta.get("design_ref", "DESIGN.md section 3, " + pid)},
+        "level_claimed": {"category": meta.get("category", "proof"), "text": meta["level_text"], "design_ref": meta.get("design_ref", "DESIGN.md section 3, " + pid)},
         "level_note": meta["level_note"],
         "technique": meta["technique"],
     })
